@@ -103,3 +103,30 @@ package client
 // y a configured address: the comparison must not crash on x and must report "different" unless both are the same IP.
 //@ func compareIPs
 //@   ensures lengths: result == 0 ==> (len(x) == 4 || len(x) == 16) && (len(y) == 4 || len(y) == 16)
+
+// ---- the SCION client: one measurement, for every packet gopacket's parser may deliver ----
+// Third-party serialisation, path and MAC calls are opaque and assumed not to fail on well-formed values (noerror
+// clause); a configured local or remote host address that is not an IP address is a declared refusal (panic with
+// errUnexpectedAddrType while the request is built). Scope: no NTS (precondition).
+//@ func (*SCIONClient).measureClockOffsetSCION
+//@   noframe
+//@   requires c != nil && mtrcs != nil && c.Log != nil && path != nil
+//@   requires !c.Auth.NTSEnabled
+//@   requires localAddr.Host != nil && remoteAddr.Host != nil && (len(remoteAddr.Host.IP) == 4 || len(remoteAddr.Host.IP) == 16)
+//@   requires c.Auth.Enabled ==> c.Auth.DRKeyFetcher != nil
+//@   requires c.Auth.opt != nil ==> len(c.Auth.opt.OptData) == 28
+//@   maypanic errUnexpectedAddrType
+//@   loop 0 invariant calls("ntp.ClockOffset") == 0
+//@   loop 0 invariant c.prev.cTxTime == before(c.prev.cTxTime) && c.prev.cRxTime == before(c.prev.cRxTime) && c.prev.sRxTime == before(c.prev.sRxTime)
+// Same clauses as for the IP client, over the packet as decoded (lastreadof(udpLayer).Payload is the NTP payload):
+// the offset is computed only from a packet whose source is the queried ISD-AS and host and whose destination is
+// the client's, from timestamps of one exchange. (A response that carries the time-service authenticator is dropped
+// unless its MAC comparison succeeds: there is no path from a failed comparison to the offset computation; a response
+// without authenticator is accepted even when a key is at hand, which the property permits.)
+//@   callsite ntp.ClockOffset 0 requires validSrc && validDst
+//@   callsite ntp.ClockOffset 0 requires same(t2, sTxTime) && (interleavedResp ==> interleavedReq && ntpresp.OriginTime == c.prev.cRxTime)
+//@   callsite ntp.ClockOffset 0 requires !interleavedResp ==> same(t0, cTxTime1) && same(t1, sRxTime) && same(t3, cRxTime) && ntpresp.OriginTime == ntpreq.TransmitTime
+//@   callsite ntp.ClockOffset 0 requires interleavedResp ==> same(t0, ntp.TimeFromTime64(c.prev.cTxTime, cTxTime0)) && same(t1, ntp.TimeFromTime64(c.prev.sRxTime, cTxTime0)) && same(t3, ntp.TimeFromTime64(c.prev.cRxTime, cTxTime0))
+//@   ensures reported: err == nil && c.Filter == nil ==> calls("ntp.ClockOffset") == 1
+//@   ensures accepted: err == nil ==> acceptable(lastreadof(udpLayer).Payload)
+//@   noerror scionLayer.SetSrcAddr, scionLayer.SetDstAddr, path.Dataplane().SetPath, payload.SerializeTo, udpLayer.SerializeTo, spao.ComputeAuthCMAC, e2eExtn.SerializeTo, scionLayer.SerializeTo
